@@ -48,7 +48,7 @@ COMPONENTS = {
 }
 FAULT_KINDS = ["oserror_open", "oserror_read", "oserror_mkdir", "torn", "crash", "crash_before", "files_lost_after_crash",
                "hash_seed", "walk_permutation", "creation_order", "prepopulated_output", "relative_paths",
-               "unrelated_files_in_spec_tree"]
+               "unrelated_files_in_spec_tree", "spec_edited_between_runs"]
 PROBES = ["walk_order_differs_from_sorted", "fault_on_first_write", "fault_on_last_write", "retry_on_same_instance",
           "torn_init_file", "restart_after_crash", "acronym_or_digit_type_name", "import_check", "second_run_same_instance"]
 SHRINK_KEYS = []
@@ -66,7 +66,7 @@ def generate(streams, tier):
         "walk_seeds": [prng.randrange(1 << 30) for _ in range(2 if tier == "quick" else 4)],
         "creation_seed": prng.randrange(1 << 30),
         "fault_seed": prng.randrange(1 << 30),
-        "configs": ["again", "relpath", "noise", "hash", "walk", "creation", "repeat", "prepop_self", "prepop_other", "prepop_other_noclean",
+        "configs": ["again", "edited", "relpath", "noise", "hash", "walk", "creation", "repeat", "prepop_self", "prepop_other", "prepop_other_noclean",
                     "transient", "crash", "import"],
     }
 
@@ -146,6 +146,23 @@ class Ctx:
         return True
 
 
+def edited_variant(tree):
+    """The same tree with other enum ordinals, other integer widths and other fixed lengths: what the
+    spec may have looked like before an edit (same file and type names, so caches keyed by name go stale)."""
+    import re
+    out = {}
+    widen = {"char": "short", "short": "three", "three": "int", "int": "three", "byte": "char"}
+    for rel, text in tree.items():
+        def bump(m):
+            n = int(m.group(2))
+            return f'{m.group(1)}{n + 1 if n < 250 else n - 1}{m.group(3)}'
+        if "PacketFamily" not in text:
+            text = re.sub(r'(<value name="[A-Za-z0-9_]+">)(\d+)(<)', bump, text)
+        text = re.sub(r'(<field name="[a-z0-9_]+" type=")(char|short|three|int)(")', lambda m: m.group(1) + widen[m.group(2)] + m.group(3), text)
+        out[rel] = text
+    return out
+
+
 def run_configs(ctx):
     plan, res = ctx.plan, ctx.res
     tree = plan["tree"]
@@ -178,6 +195,19 @@ def run_configs(ctx):
         key("again")
         if not ctx.judge("identical-rerun", rs[1], rs[2]["files"]):
             return False
+    # ---- one generator instance; the spec under its input root is edited between two runs ----------------
+    if "edited" in configs:
+        variant = edited_variant(tree)
+        xe = ctx.write_xml(variant, "xml_edit")
+        o1, o2 = ctx.path("edit1"), ctx.path("edit2")
+        rs = ctx.child([{"op": "new", "xml": xe}, {"op": "generate", "out": o1},
+                        {"op": "rewrite_xml", "dir": xe, "tree": tree},
+                        {"op": "generate", "out": o2}, {"op": "digest", "dir": o2}], "0")
+        res.count("fault.spec_edited_between_runs")
+        key("edited")
+        if rs[1].get("status") == "ok":      # the edited variant is itself a valid tree (when the generator accepts it)
+            if not ctx.judge("same-instance-after-spec-edit", rs[3], rs[4]["files"]):
+                return False
     # ---- relative input/output paths from another working directory -----------------------------------
     if "relpath" in configs:
         o = ctx.path("rel_out")
@@ -395,7 +425,7 @@ def shrink(plan, still_fails, budget):
         return plan
     config = res.violation.get("config", "")
     best = plan
-    mapping = {"identical-rerun": "again", "relative-paths": "relpath", "unrelated-files": "noise", "hash-seed": "hash", "walk-order": "walk", "creation-order": "creation", "second-run-same-instance": "repeat",
+    mapping = {"identical-rerun": "again", "same-instance-after-spec-edit": "edited", "relative-paths": "relpath", "unrelated-files": "noise", "hash-seed": "hash", "walk-order": "walk", "creation-order": "creation", "second-run-same-instance": "repeat",
                "third-run-same-directory": "repeat", "prepopulated-own-output": "prepop_self",
                "prepopulated-other-tree": "prepop_other_noclean", "clean-then-generate-over-other-tree": "prepop_other",
                "import": "import", "io-error": "transient", "restart-after-crash": "crash", "protocol.py": "prepop_other"}
